@@ -15,6 +15,9 @@ type FragReader struct {
 	Data        []byte
 	Cuts        []int
 	EOFWithData bool
+	// FinalErr, if set, is what the last fragment arrives with (and what later
+	// calls return) instead of io.EOF: an error that is not EOF, or wraps it
+	FinalErr error
 	MaxPerCall  int // 0 = unlimited (only cuts fragment)
 	// ZeroAt >= 0: the first Read call that starts at this offset returns
 	// (0, nil) - "nothing happened", which the io.Reader contract allows and
@@ -34,6 +37,9 @@ func (f *FragReader) Read(p []byte) (int, error) {
 		return 0, nil
 	}
 	if f.pos >= len(f.Data) {
+		if f.FinalErr != nil {
+			return 0, f.FinalErr
+		}
 		return 0, io.EOF
 	}
 	if (f.ZeroEvery && f.Calls%2 == 1) || (f.ZeroAt > 0 && !f.zeroDone && f.pos == f.ZeroAt-1) {
@@ -62,6 +68,9 @@ func (f *FragReader) Read(p []byte) (int, error) {
 	copy(p, f.Data[f.pos:f.pos+n])
 	f.pos += n
 	if f.pos >= len(f.Data) && f.EOFWithData {
+		if f.FinalErr != nil {
+			return n, f.FinalErr
+		}
 		return n, io.EOF
 	}
 	return n, nil
